@@ -1850,6 +1850,16 @@ vbi_export_file			(vbi_export *		e,
 		vbi_export_error_printf
 			(e, _("Cannot create file '%s': %s."),
 			 name, strerror (errno));
+
+		/* Do not keep the caller's string, a later write
+		   error on another target would print it. */
+		memset (&e->_handle, -1, sizeof (e->_handle));
+
+		e->_write = NULL;
+		e->target = 0;
+
+		e->name = NULL;
+
 		return FALSE;
 	}
 
